@@ -174,6 +174,7 @@ func runC11(rep *TReport, raw json.RawMessage) {
 		Omitted                bool
 		Req                    tURI
 		RType, Mode, Err       string
+		Public                 bool // the request is made by a public client (which sends a PKCE challenge)
 		Allowed, Undet, CodeOK bool `json:"-"`
 		AllowedJ               bool `json:"allowed"`
 		UndetJ                 bool `json:"undet"`
@@ -189,12 +190,16 @@ func runC11(rep *TReport, raw json.RawMessage) {
 		regs = append(regs, u.String())
 	}
 	w.Mem.Clients["A"] = &fosite.DefaultResponseModeClient{
-		DefaultClient: &fosite.DefaultClient{ID: "A", Secret: []byte("plain:" + ClientSecrets["A"]), RedirectURIs: regs,
+		DefaultClient: &fosite.DefaultClient{ID: "A", Secret: []byte("plain:" + ClientSecrets["A"]), RedirectURIs: regs, Public: r.Public,
 			ResponseTypes: []string{"code", "token"}, GrantTypes: allGrantTypes, Scopes: []string{"a"}},
 		ResponseModes: []fosite.ResponseModeType{fosite.ResponseModeQuery, fosite.ResponseModeFragment, fosite.ResponseModeFormPost},
 	}
 	q := url.Values{}
 	q.Set("client_id", "A")
+	if r.Public {
+		q.Set("code_challenge", "E9Melhoa2OwvFrEMTJguCHaoeK1t8URWbuGJSstw-cM")
+		q.Set("code_challenge_method", "S256")
+	}
 	q.Set("response_type", r.RType)
 	q.Set("scope", "a")
 	q.Set("state", GoodState)
@@ -280,7 +285,11 @@ func runC11(rep *TReport, raw json.RawMessage) {
 				pf[k] = v
 			}
 		}
-		preq.SetBasicAuth("A", ClientSecrets["A"])
+		if r.Public {
+			pf.Set("client_id", "A")
+		} else {
+			preq.SetBasicAuth("A", ClientSecrets["A"])
+		}
 		finishPost(preq, pf)
 		par, perr := w.Provider.NewPushedAuthorizeRequest(ctx, preq)
 		if perr == nil {
